@@ -54,6 +54,28 @@ def run_http_layer(ctx):
     ctx.cov["transitions"] += r.generated
 
 
+def run_client_session(ctx):
+    """ClientSession.tla: ServerProxy + History + MultiCall life cycle against a raw peer with injected 500 answers;
+    recorded operation words are replayed as spec actions (ClientSessionTrace.tla)."""
+    ctx.model("ClientSession", "ClientSession.cfg", workers=4, timeout=600)
+    tf = ctx.path("growth_session.json")
+    common.run_py(os.path.join(VERIF, "harness", "session_run.py"), ["run", tf, ctx.seed, 150 if ctx.tier == "quick" else 3000])
+    r = common.tlc("ClientSessionTrace", "ClientSessionTrace.cfg", env={"TRACE_FILE": tf}, workers=1, timeout=900)
+    if r.errors or not r.finished:
+        raise common.MachineryError("ClientSessionTrace did not complete:\n" + "\n".join(r.errors)[:1500])
+    traces = json.load(open(tf))
+    bad = {}
+    for m in re.finditer(r'<<"GROWTHFAIL", (\d+), "(\w+)", (\d+)>>', r.out):
+        bad.setdefault(int(m.group(1)), int(m.group(3)))
+    for t, l in list(bad.items())[:5]:
+        e = traces[t - 1]["ev"][l - 1]
+        print("GROWTH-FINDING (not a listed property): ClientSession.tla does not explain operation %d (%s, fails=%s) of a recorded word: "
+              "observed %s" % (l, e["op"], e["f"], json.dumps({k: e[k] for k in ("jobs", "hreq", "hresp", "opened", "last")})))
+    ctx.cov.setdefault("growth", {})["client_session"] = {"words": len(traces), "operations": sum(len(t["ev"]) for t in traces),
+                                                         "mismatching_words": len(bad), "trace_states": r.distinct}
+    ctx.cov["transitions"] += r.generated
+
+
 def safely(ctx, fn):
     """Growth runs never decide a listed property: a failure of theirs is reported, it does not change the verdict."""
     try:
